@@ -101,6 +101,10 @@ func (k Keeper) handleDoubleSign(ctx sdk.Ctx, addr crypto.Address, infractionHei
 	if err != nil {
 		panic(err)
 	}
+	if validator == nil {
+		// the evidence is older than MaxEvidenceAge: ignore it
+		return
+	}
 	// We need to retrieve the stake distribution which signed the block, so we subtract ValidatorUpdateDelay from the evidence height.
 	// Note that this *can* result in a negative "distributionHeight", up to -ValidatorUpdateDelay,
 	distributionHeight := infractionHeight - sdk.ValidatorUpdateDelay
